@@ -211,6 +211,34 @@ def build_obligation(inst):
                     y = names[1]
                     e = g(**{x: Variable(y, Reals[sh]) * 0.5 - u})
                     xval = _cells(pt[y]) * 0.5 - _cells(pu)
+                elif form in ("rename_affine", "rename_affine_int") and len(names) >= 2:
+                    # ONE call that renames a real input and substitutes an affine expression for another
+                    # (and, in the second form, also indexes a batch input)
+                    y = names[1]
+                    kw = {x: u * 2.0 - 1.0, y: Variable("yy", Reals[reals[y]])}
+                    if form == "rename_affine_int":
+                        if not batch:
+                            raise Decline("form not applicable")
+                        kb = next(iter(batch))
+                        kw[kb] = 0
+                    e = g(**kw)
+                    want_in = (set(batch) - ({kb} if form == "rename_affine_int" else set())) | (set(reals) - {x, y}) | {"u", "yy"}
+                    if set(e.inputs) != want_in:
+                        import z3
+                        return [(z3.BoolVal(False) if mk.symbolic else False, None)]
+                    xval = _cells(pu) * 2.0 - 1.0
+                    pyy = pt.pop(y)
+                    allpt = dict(pt)
+                    allpt.update(u=pu, v=pv, yy=pyy)
+                    r = eval_at(e, allpt)
+                    full = dict(pt)
+                    full[x] = xval
+                    full[y] = pyy
+                    xs = flat_point(full, reals)
+                    if form == "rename_affine_int":
+                        rest = OrderedDict((k, n) for k, n in batch.items() if k != kb)
+                        return [(value_cells(r, rest), [dense(W, P, (0,) + b, xs) for b in itertools.product(*(range(n) for n in rest.values()))])]
+                    return [(value_cells(r, batch), [dense(W, P, b, xs) for b in itertools.product(*(range(n) for n in batch.values()))])]
                 else:
                     raise Decline("form not applicable")
                 allpt = dict(pt)
@@ -447,7 +475,7 @@ def instances(tier, seed):
                 out.append(("int", batch, reals, rank, how))
             out.append(("plate", batch, reals, rank))
             out.append(("cat", batch, reals, rank, max(1, rank - 1)))
-        for form in ("one", "two", "kept"):
+        for form in ("one", "two", "kept", "rename_affine", "rename_affine_int"):
             out.append(("affine", batch, reals, rank, form))
     for b, part_name in ((OrderedDict(i=2), "i"), (OrderedDict(i=2, j=3), "i"), (OrderedDict(i=2, j=4), "i"), (OrderedDict(j=4, i=2), "i"), (OrderedDict(i=1, j=2, k=2), "j")):
         for reals in (OrderedDict(x=()), OrderedDict(x=(), y=(2,))):
